@@ -437,10 +437,16 @@ fn color_styles(
 
 fn split_lines(styled: &[(anstyle::Style, String)]) -> Vec<Vec<(anstyle::Style, &str)>> {
     let mut lines = Vec::new();
-    let mut current_line = Vec::new();
+    let mut current_line: Vec<(anstyle::Style, &str)> = Vec::new();
     for (style, mut next) in styled.iter().map(|(s, t)| (*s, t.as_str())) {
         while let Some((current, remaining)) = next.split_once('\n') {
             let current = current.strip_suffix('\r').unwrap_or(current);
+            if current.is_empty() {
+                // The carriage return may have ended up in the previous, differently styled, fragment
+                if let Some((_, last)) = current_line.last_mut() {
+                    *last = last.strip_suffix('\r').unwrap_or(last);
+                }
+            }
             current_line.push((style, current));
             lines.push(current_line);
             current_line = Vec::new();
